@@ -84,7 +84,7 @@ def generate(info):  # pylint: disable=too-many-locals,too-many-statements
     w('static dzn::locator user_loc; static std::unique_ptr<dzn::pump> user_pump; '
       'static std::unique_ptr<dzn::runtime> user_rt; static SvcA svc_a; static SvcB svc_b;')
     w('static std::unique_ptr<Shell> sh; static std::unique_ptr<Shell> sh2; static dzn::meta parent_meta;')
-    w('static std::vector<std::thread> helpers; static std::atomic<int> helpers_done{0};')
+    w('static std::vector<std::thread> helpers; static std::atomic<int> helpers_done{0}; static long paused_posted = 0;')
     w('static Comp* comp() { return static_cast<Comp*>(vf::S().component); }')
     # detection idiom for Locator()
     w('template <typename T, typename = void> struct has_locator : std::false_type {};')
@@ -246,10 +246,10 @@ def generate(info):  # pylint: disable=too-many-locals,too-many-statements
       '{ vf::note("async-threw", "\\"what\\":\\"" + vf::esc(x.what()) + "\\""); } ++helpers_done; }); }')
     w('    else if (cmd == "join") { for (auto& h : helpers) h.join(); helpers.clear(); vf::note("joined"); }')
     w('    else if (cmd == "probe") { vf::note("probe", "\\"helpers_done\\":" + std::to_string(helpers_done.load()) + "," + vf::ctx()); }')
-    w('    else if (cmd == "pause") { vf::S().pump->pause(); vf::note("paused", vf::ctx()); }')
+    w('    else if (cmd == "pause") { vf::S().pump->pause(); paused_posted = vf::S().pump->posted; vf::note("paused", vf::ctx()); }')
     w('    else if (cmd == "resume") { vf::note("resuming", vf::ctx()); vf::S().pump->resume(); }')
     w('    else if (cmd == "idle") { vf::S().pump->wait_idle(); vf::note("idle", vf::ctx()); }')
-    w('    else if (cmd == "waitposted") { long n; int ms; is >> n >> ms; bool ok = vf::S().pump->wait_posted(n, ms); '
+    w('    else if (cmd == "waitposted") { long n; int ms; is >> n >> ms; bool ok = vf::S().pump->wait_posted(paused_posted + n, ms); '
       'vf::note("waitposted", std::string("\\"ok\\":") + (ok ? "true" : "false") + "," + vf::ctx()); }')
     w('    else if (cmd == "sleep") { int ms; is >> ms; std::this_thread::sleep_for(std::chrono::milliseconds(ms)); }')
     w('    else if (cmd == "force") { std::string key; is >> key; long v; std::lock_guard<std::mutex> l(vf::S().forced_m); '
